@@ -2,7 +2,7 @@
 import re
 
 from hir import (
-    nodes, walk, norm_path, last, pat_alternatives, pat_variant, pat_fields, pat_bindings, pat_strip,
+    diverges, nodes, walk, norm_path, last, pat_alternatives, pat_variant, pat_fields, pat_bindings, pat_strip,
     pat_is_catchall, callee, call_args, fn_body, line_of, peel,
 )
 from flow import Flow
@@ -105,9 +105,14 @@ class Visit:
         for enum in self.enums:
             adt = self.F.adt(enum)
             vfields = {norm_path(v["path"]): v for v in adt["variants"]}
+            param_hids = {b["hid"] for prm in fn["params"] for b in pat_bindings(prm["pat"])}
             for m in matches_on(body, enum):
                 scrut_hids = {x["hid"] for x in nodes(m["scrut"], "Path") if x.get("res") == "Local"}
+                if not (scrut_hids & param_hids):
+                    continue  # not the fold's own dispatch (a nested inspection of some child)
                 for arm, alt, vpath in arm_alternatives(m):
+                    if diverges(arm["body"]):
+                        continue  # unreachable!/panic! arms are phase contracts (checked by C07)
                     if vpath is None:
                         if pat_is_catchall(alt):
                             key = "%s|%s|_" % (fname, last(enum))
